@@ -195,6 +195,31 @@ Proof.
 Qed.
 Print Assumptions C05_by_universe_lists.
 
+(* CellInlining.inline_cells (occurrence counting, scores, threshold, recursive substitution,
+   in-place loop over the dictionary) for any threshold: every tree that had a value at a point
+   - in particular every cell, through TRef - has the same value there afterwards, and only
+   geometries change *)
+Theorem C05_inline_cells_den :
+  forall (T surf P : Type) (sense : surf -> P -> bool) fuel num den (s : state T surf) cells',
+  inline_cells T fuel num den (s_cells s) = Ok cells' ->
+  (forall p e b, Den T surf P sense s p e b -> Den T surf P sense (set_cells T surf s cells') p e b) /\
+  (forall k cl, dget k (s_cells s) = Some cl -> exists g, dget k cells' = Some (with_geom cl g)).
+Proof.
+  intros T surf P sense fuel num den s cells' H. split.
+  - exact (inline_cells_den T surf P sense fuel num den s cells' H).
+  - unfold inline_cells in H.
+    assert (Same : Ok (s_cells s) = Ok cells' ->
+              forall k cl, dget k (s_cells s) = Some cl -> exists g, dget k cells' = Some (with_geom cl g)).
+    { intros E k cl Hk. inversion E; subst. exists (c_geom cl). destruct cl; exact Hk. }
+    destruct (find_occurrences T (s_cells s)) as [occ|]; [|discriminate].
+    destruct occ as [|o occ']; [exact (Same H)|].
+    destruct (to_inline_set T (s_cells s) num den (o :: occ')) as [ti|]; [|discriminate].
+    destruct ti as [|t0 ti']; [exact (Same H)|].
+    intros k cl Hk.
+    exact (inline_loop_fields T fuel (t0 :: ti') _ _ _ H k cl Hk).
+Qed.
+Print Assumptions C05_inline_cells_den.
+
 (* non-vacuity: the executable instance of the correspondence check obeys both laws (points on a
    line), and a deck with two levels of universes (fill transformation at level 0, TRCL-only
    fill at level 1) satisfies every hypothesis above; the point x = 9 is located along
